@@ -14,6 +14,12 @@ pub enum Op {
     /// method: full (create_edge / create_edge_with_properties), stub (create_edge_stub)
     Edge { method: String, src: usize, tgt: usize, ty: String, props: Vec<(String, PV)> },
     SetProp { node: usize, key: String, val: PV },
+    /// `node.set_property` on the current version: the row copy only (may disagree with the column)
+    RowSet { node: usize, key: String, val: PV },
+    /// `set_column_property`: the column copy only (may disagree with the row)
+    ColSet { node: usize, key: String, val: PV },
+    /// `set_edge_property` on the k-th created relationship
+    EdgeSet { edge: usize, key: String, val: PV },
     Commit,
     Compact,
     Hier { name: String, types: Vec<String>, reverse: bool, mlabel: Option<String>, mprop: Option<String>, ops: Vec<String> },
@@ -33,6 +39,9 @@ pub fn render_op(op: &Op) -> String {
             format!("E~{}~{}~{}~{}~{}", method, src, tgt, xs(ty), props_vec_text(props))
         }
         Op::SetProp { node, key, val } => format!("P~{}~{}~{}", node, xs(key), pv_text(val)),
+        Op::RowSet { node, key, val } => format!("RS~{}~{}~{}", node, xs(key), pv_text(val)),
+        Op::ColSet { node, key, val } => format!("CS~{}~{}~{}", node, xs(key), pv_text(val)),
+        Op::EdgeSet { edge, key, val } => format!("ES~{}~{}~{}", edge, xs(key), pv_text(val)),
         Op::Commit => "V".into(),
         Op::Compact => "C".into(),
         Op::Hier { name, types, reverse, mlabel, mprop, ops } => format!(
@@ -212,6 +221,9 @@ pub fn parse_op(s: &str) -> Option<Op> {
             props: parse_props(ps)?,
         }),
         ["P", n, k, v] => Some(Op::SetProp { node: n.parse().ok()?, key: parse_x(k)?, val: parse_pv(v)? }),
+        ["RS", n, k, v] => Some(Op::RowSet { node: n.parse().ok()?, key: parse_x(k)?, val: parse_pv(v)? }),
+        ["CS", n, k, v] => Some(Op::ColSet { node: n.parse().ok()?, key: parse_x(k)?, val: parse_pv(v)? }),
+        ["ES", e, k, v] => Some(Op::EdgeSet { edge: e.parse().ok()?, key: parse_x(k)?, val: parse_pv(v)? }),
         ["V"] => Some(Op::Commit),
         ["C"] => Some(Op::Compact),
         ["H", n, ts, r, ml, mp, ops] => Some(Op::Hier {
@@ -389,6 +401,38 @@ pub fn apply(b: &mut Built, ops: &[Op]) {
                     b.store.set_node_property("default", id, key.clone(), val.clone()).expect("set prop");
                 }
             }
+            Op::RowSet { node, key, val } => {
+                if let Some(Some(id)) = b.handles.get(*node).copied() {
+                    if has_ws_edge_or_non_ascii(key) {
+                        b.feat.edgy_string = true;
+                    }
+                    value_features(val, &mut b.feat);
+                    b.executed.push("rowset".into());
+                    if let Some(n) = b.store.get_node_mut(id) {
+                        n.set_property(key.clone(), val.clone());
+                    }
+                }
+            }
+            Op::ColSet { node, key, val } => {
+                if let Some(Some(id)) = b.handles.get(*node).copied() {
+                    if has_ws_edge_or_non_ascii(key) {
+                        b.feat.edgy_string = true;
+                    }
+                    value_features(val, &mut b.feat);
+                    b.executed.push("colset".into());
+                    b.store.set_column_property(id, key, val.clone());
+                }
+            }
+            Op::EdgeSet { edge, key, val } => {
+                if let Some(Some(eid)) = b.edges.get(*edge).copied() {
+                    if has_ws_edge_or_non_ascii(key) {
+                        b.feat.edgy_string = true;
+                    }
+                    value_features(val, &mut b.feat);
+                    b.executed.push("edgeset".into());
+                    let _ = b.store.set_edge_property(eid, key.clone(), val.clone());
+                }
+            }
             Op::Commit => {
                 b.executed.push("commit".into());
                 let t = b.store.begin_transaction(IsolationLevel::SnapshotIsolation);
@@ -551,8 +595,18 @@ pub fn gen_program(r: &mut Rng, size: usize, deletes: bool) -> Vec<Op> {
             };
             ops.push(Op::Edge { method, src, tgt, ty, props });
             n_edges += 1;
-        } else if c < 80 {
+        } else if c < 76 {
             ops.push(Op::SetProp { node: r.usize(n_nodes), key: r.pick(KEYS).to_string(), val: gen_value(r, 2) });
+        } else if c < 80 {
+            // mixed placement: one copy of a property only (row or column), possibly disagreeing
+            // with the other copy; and relationship properties set after creation
+            let (node, key, val) = (r.usize(n_nodes), r.pick(KEYS).to_string(), gen_value(r, 2));
+            match r.usize(3) {
+                0 => ops.push(Op::RowSet { node, key, val }),
+                1 => ops.push(Op::ColSet { node, key, val }),
+                _ if n_edges > 0 => ops.push(Op::EdgeSet { edge: r.usize(n_edges), key, val }),
+                _ => ops.push(Op::ColSet { node, key, val }),
+            }
         } else if c < 85 {
             ops.push(Op::Commit);
             committed = true;
